@@ -345,8 +345,11 @@ func c06r3(c *core.Ctx) {
 		okc := false
 		core.Instrs(pf, func(i ssa.Instruction) {
 			if f := core.Callee(i); f != nil && cn(f) == "packetsWithSizeFromBytes" {
-				if n, ok := core.ConstInt(core.Args(i)[0]); ok && n == v {
-					okc = true
+				// the size argument, wherever it stands in the parameter list
+				for _, a := range core.Args(i) {
+					if n, ok := core.ConstInt(a); ok && n == v {
+						okc = true
+					}
 				}
 			}
 		})
